@@ -169,6 +169,9 @@ func (s *sut) enabled() []lop {
 			}
 			prevs = append(prevs, last+1) // a probe beyond the local log: must be rejected
 			for _, prev := range prevs {
+				if prev < m.committed {
+					continue // raft answers such appends from its commit index without consulting the log
+				}
 				for n := uint64(1); n <= 2; n++ {
 					out = append(out, lop{kind: "follow", a: prev, b: t, c: n, d: d})
 				}
@@ -197,10 +200,23 @@ func (s *sut) enabled() []lop {
 			}
 		}
 	}
-	if m.committed < last && m.pendSnap == 0 {
+	// the commit index only moves over entries that match the current leader's log
+	climit := m.committed
+	if m.ledTerm == m.term {
+		climit = last
+	} else if m.folTerm == m.term {
+		climit = max(climit, min(m.folD, last))
+		for i := m.folD + 1; i <= last; i++ {
+			if t, _ := m.log.term(i); t != m.folTerm {
+				break
+			}
+			climit = max(climit, i)
+		}
+	}
+	if m.committed < climit && m.pendSnap == 0 {
 		out = append(out, lop{kind: "commit", a: m.committed + 1})
-		if last > m.committed+1 {
-			out = append(out, lop{kind: "commit", a: last})
+		if climit > m.committed+1 {
+			out = append(out, lop{kind: "commit", a: climit})
 		}
 	}
 	if m.applied < m.committed && m.pendSnap == 0 {
@@ -400,7 +416,7 @@ func (s *sut) apply(o lop) (res string) {
 		}
 	case "restore":
 		bump(o.b)
-		m.folTerm = o.b
+		m.folTerm, m.folD = o.b, o.a
 		s.l.Restore(&pb.Snapshot{Metadata: &pb.SnapshotMetadata{Index: new(o.a), Term: new(o.b), ConfState: &pb.ConfState{Voters: []uint64{1}}}})
 		m.log = alist{base: o.a, baseTerm: o.b}
 		m.committed = o.a
